@@ -397,10 +397,11 @@ def fresh_outcomes():
 def canon_state(w):
     """Reported only (not used for merging): what a compile/execute might leave behind."""
     names = tuple(p.name for stmt in (w.P1, w.N1) for p in stmt.walk() if isinstance(p, A.Placeholder))
-    from beanquery import query_env
-    bal = query_env.PostingsTable.columns['balance']
-    info = getattr(getattr(bal, '__call__', None), 'cache_info', lambda: None)()
-    return (names, info and (info.currsize,), tuple(sorted(vars(w.conn.tables['postings']).keys())))
+    try:
+        attrs = tuple(sorted(vars(w.conn.tables['postings']).keys()))
+    except Exception:
+        attrs = ()
+    return (names, attrs)
 
 
 _EXECUTED_IN_PROCESS = []      # distinct events executed by earlier histories of this process, in order of first execution
